@@ -37,6 +37,13 @@ fn one(out: &mut Out, n: usize, m: &[f64], count: &mut usize, with_bonds: &mut u
         for i in 0..(n - 1) { prev[i * n + i + 1] = 1.0; prev[(i + 1) * n + i] = 1.0; }
         w.set_bond_orders(prev);
     }
+    // a third of the molecules already hold coordinates (on a line, on a zig-zag, scattered): the outcome is the matrix's alone
+    match *count % 9 {
+        2 => { let _ = panic_kind(|| w.set_coordinates((0..n).flat_map(|i| [1.2 * i as f64, 0.0, 0.0]).collect())); }
+        5 => { let _ = panic_kind(|| w.set_coordinates((0..n).flat_map(|i| [0.0, 1.1 * i as f64, if i % 2 == 0 { 0.0 } else { 0.6 }]).collect())); }
+        8 => { let _ = panic_kind(|| w.set_coordinates((0..n).flat_map(|i| [((i * 37 + 11) % 17) as f64 * 0.61, ((i * 23 + 5) % 13) as f64 * 0.83, ((i * 7 + 3) % 11) as f64 * 0.97]).collect())); }
+        _ => {}
+    }
     let input = format!("matrix {} {}", n, if m.is_empty() { "-".to_string() } else { m.iter().map(|v| hx(*v)).collect::<Vec<_>>().join(" ") });
     let r = panic_kind(|| w.set_bond_orders(m.to_vec()));
     *count += 1;
